@@ -500,6 +500,7 @@ package fdo
 //@   local ownerPubKey = call:crypto.Signer.Public#1
 //@   props C04 C03 C10(sweep)
 //@   sweep bounds,panic,make
+//@   modifies nothing
 //@   callsites newSignedEntry 1
 //@   callassert newSignedEntry#1: @owner KeyEq(u(ownerPubKey), u(expectedOwnerPubKey)) && u(arg0) == u(owner)
 //@   callassert newSignedEntry#1: @lastkey imp(len(v.Entries) > 0, u(expectedOwnerPubKey) == PubOf(u(v.Entries[len(v.Entries)-1].Payload.Val.PublicKey))) && imp(len(v.Entries) == 0, u(expectedOwnerPubKey) == PubOf(u(v.Header.Val.ManufacturerKey)))
@@ -513,11 +514,8 @@ package fdo
 //@   nopaths
 //@   modifies nothing
 //@   ensures err == nil ==> result0 != nil
-//@ func fdo.Voucher.shallowClone
-//@   params v
-//@   nopaths
-//@   pure
-//@   ensures result != nil
+// (fdo.Voucher.shallowClone has no contract: it is inlined, so that the sharing of Entries between
+// the clone and its input is visible to the frame check of ExtendVoucher)
 
 // the owner produces service info only with the MTU the device announced in
 // message 66 (no MTU in the session = 66 was skipped = error) (C08)
